@@ -316,7 +316,7 @@ func runC05(c *ctx) {
 	old := schema.VerifSetMaxStaticSetMembers(3)
 	defer schema.VerifSetMaxStaticSetMembers(old)
 	ctxb := context.Background()
-	nWorlds := c.n(14, 150)
+	nWorlds := c.n(14, 60)
 	for wi := 0; wi < nWorlds; wi++ {
 		size := 4 + c.rng.Intn(3)
 		if wi%3 == 2 {
@@ -329,7 +329,7 @@ func runC05(c *ctx) {
 				deliver = append(deliver, b.id)
 			}
 		}
-		limit := c.n(720, 5040)
+		limit := c.n(720, 2000)
 		if len(deliver) > 6 {
 			limit = c.n(40, 300)
 		}
@@ -406,7 +406,7 @@ func runC05(c *ctx) {
 			}
 		}
 		// concurrent delivery over several goroutines
-		for rep := 0; rep < c.n(6, 40); rep++ {
+		for rep := 0; rep < c.n(6, 30); rep++ {
 			kv := sorted.NewMemoryKeyValue()
 			src := new(test.Fetcher)
 			ix := cw.newIndex(kv, src, rep%2 == 0)
